@@ -97,6 +97,14 @@ def body_app(buf, max_body):
         peek = app.request.body.read(3)
         again = app.request.body.read()
         res['reread'] = 'same' if (again == res['out'] and peek == res['out'][:3]) else 'differs'
+        # what a handler does with ITS body object (append a marker, close it) is its own business and stays with this request
+        b = app.request.body
+        try:
+            b.seek(0, 2)
+            b.write(b'<scribbled by the handler of an earlier request>')
+        except (ValueError, OSError):
+            pass
+        b.close()
         return 'ok'
     _apps[key] = (app, res)
     return _apps[key]
@@ -107,10 +115,16 @@ CTYPES = [None, None, 'application/octet-stream', 'text/plain', 'application/jso
           'Multipart/Mixed; boundary=0']
 
 
-def run_real(mode, inp, cl, buf, max_body, schedule=None, rng=None, kind='cl', expect=b'', short_p=0.5, ctype=None):
+def run_real(mode, inp, cl, buf, max_body, schedule=None, rng=None, kind='cl', expect=b'', short_p=0.5, ctype=None, plain=None):
+    """plain = k: wsgi.input is an ordinary io.BytesIO positioned at offset k of (k junk bytes + inp) -- what a test client, a
+    sub-request or a buffering outer application hands over; its reads cannot be logged (no mechanism conformance for it)."""
     app, res = body_app(buf, max_body)
     res.clear()
     st = Stream(bytes(inp), schedule, rng, short_p)
+    if plain is not None:
+        st = io.BytesIO(b'J' * plain + bytes(inp))
+        st.seek(plain)
+        st.ev = []
     env = base_environ(REQUEST_METHOD='POST', PATH_INFO='/b')
     env['wsgi.input'] = st
     if ctype is None and rng is not None:
@@ -137,7 +151,7 @@ def run_real(mode, inp, cl, buf, max_body, schedule=None, rng=None, kind='cl', e
         'mode': mode, 'inp': bytes(inp), 'cl': cl, 'buf': buf, 'maxBody': max_body,
         'ev': st.ev, 'phase': phase, 'out': out if phase == 'done' else b'',
         'spooled': bool(res.get('spooled', False)) if phase == 'done' else False,
-        'reread': res.get('reread', 'na') if phase == 'done' else 'na', 'ctype': ctype or '',
+        'reread': res.get('reread', 'na') if phase == 'done' else 'na', 'ctype': ctype or '', 'opaque': plain is not None,
         'kind': kind, 'expect': bytes(expect), 'errors': env['wsgi.errors'].getvalue()[-400:],
     }
 
@@ -196,7 +210,7 @@ def validate(chk, traces, module, clauses, what):
                           % (what, sorted(rel), t['mode'], t['cl'], t['buf'], t['maxBody'], t['phase'], len(t['ev'])), c)
             nviol += 1
     # a mechanism mismatch without a property failure is drift, not a violation
-    drift = [tid for tid in sorted(missing) if not (fails.get(tid, set()) & clauses)]
+    drift = [tid for tid in sorted(missing) if not (fails.get(tid, set()) & clauses) and not traces[tid - 1].get('opaque')]
     if drift:
         t = traces[drift[0] - 1]
         chk.drift('%s: %d recorded execution(s) are not behaviours of the implementation-shaped model '
